@@ -62,7 +62,8 @@ PROPS = {
     "C16": chain("C16", 60, 1500, floor=0.2,
         technique="property-based testing: rapid state machine over the real app; expected typed-event multiset derived from the record diff vs events parsed as the provider parses them; codec round trip in package events",
         level_text="For every successful transaction the multiset of expected typed events is derived from the before/after record diff (including hook cascades) and compared with the transaction's akash.v1 events parsed through the module ParseEvent chain; spurious created/closed/paused/started events are rejected; all event types round-trip through the provider's real processEvent for generated ids and prices.",
-        level_note="Trusted: as C01; events of failed transactions are ignored (they are never published)."),
+        level_note="Trusted: as C01; events of failed transactions are ignored (they are never published).",
+        extra_units=[{"pkg": "events", "run": "^TestVerif_C16_Codec$", "checks": {Q: 3000, T: 100000}, "shards": {Q: 1, T: 8}, "timeout": {Q: 600, T: 3000}}]),
     "C17": {
         "level": "exploration", "floor": 0.4,
         "technique": "property-based testing: rapid state machine over the real cert keeper and gRPC querier vs a map model; all iterators, filters and page sizes",
@@ -84,6 +85,7 @@ PROPS = {
     },
     "C10": {
         "level": "exploration", "floor": 0.6,
+        "fuzz": [{"pkg": "validation", "target": "FuzzC10CrossValidation", "time": 90}],
         "technique": "property-based testing: split/merge/permute and near-miss generators vs an independent multiset oracle (both directions); metamorphic hash relations (key-shuffled JSON round trip, every single-field edit by reflection); version gate through the real manifest manager (C20 harness); native fuzzing of the JSON manifest decoder in thorough",
         "level_text": "On-chain groups are generated from a small palette so that equal units recur; manifests are derived by splitting, merging and permuting services (must be accepted by both cross-validation entry points) and by one small alteration (count, cpu/memory/storage by one unit, one attribute, global<->local, port 80<->81, group renamed/added/dropped: must be rejected); an independent multiset oracle decides both directions. ManifestVersion must be invariant under key-shuffled JSON round trips and change under every single-field edit enumerated by reflection. The hash-vs-chain-version gate is exercised against the real manager in the C20 harness.",
         "level_note": "Trusted: the oracle's definition of endpoint kinds (TCP, global, external port 80 = shared HTTP); counts >= 1 (count-0 units are unreachable for real callers).",
@@ -95,6 +97,7 @@ PROPS = {
     },
     "C18": {
         "level": "exploration", "floor": 0.4,
+        "fuzz": [{"pkg": "sdl", "target": "FuzzC18Read", "time": 120}],
         "technique": "property-based testing: structural SDL v2 document generator with generated YAML key permutations; determinism, faithfulness against the generator's own tree, and cross-validation oracles; native fuzzing of sdl.Read in thorough",
         "level_text": "Documents (1-4 services with image/command/args/env/exposes, 1-3 compute profiles in integral and decimal unit forms, 1-3 placements with attributes/signedBy/pricing, deployment map) are emitted as YAML twice - canonical and with every mapping's keys permuted - and read repeatedly: groups, manifest and version must be identical; every declared field must appear unchanged in manifest and groups (decimal quantities within one unit: the parser truncates a float product); the manifest must validate against the groups of the same document.",
         "level_note": "Trusted: the harness's YAML emitter; a document Read rejects is skipped (counted), a panic/error on an invalid document is a rejection.",
